@@ -2,6 +2,6 @@
 SPECIFICATION Spec
 CONSTANTS MaxOps = 3  Tries = 3
   MFields <- MFieldsAll  SeedSet <- SeedsOne  DigestAtoms = {1, 2}  NonceSet <- NoncesTwo
-  Counts = {0, 1, 4}  Sizes = {2, 8}  Degs = {1, 2}
+  Counts = {0, 1, 4}  Sizes <- SizesQuick  Degs = {1, 2}
 INVARIANT Deterministic Sensitive Fresh Promised CounterOK
 CHECK_DEADLOCK FALSE
